@@ -40,7 +40,7 @@ def run(tier, seed):
     H = "hugr.hugr.base.Hugr."
     listings = ([os.path.join(VERIF, "contracts", f) for f in ("node_port.py", "utils.py", "base.py")],
                 [H + "_linked_ports", H + "linked_ports", H + "outgoing_order_links", H + "incoming_order_links", H + "_node_links", H + "incoming_links", H + "outgoing_links"])
-    standard_flow(res, FILES, TARGETS, None, bounded_modules=[("bounded.c12", 300, 1800)], more=[listings])
+    standard_flow(res, FILES, TARGETS, None, bounded_modules=[("bounded.c12", 900, 1800)], more=[listings])
     ground(res)
     res.level = "other"
     res.explanation = ("Proved from the real source: the number of ports listed for a node is the number of value ports of its signature (the instantiated one for Call; none / one for constant and "
